@@ -33,6 +33,7 @@ INVARIANTS
   C04_CallsEnd
   C04_ClientObserves
   C04_ErrNilIffClean
+  C04_ErrStableAtDone
   C04_FailFast
   C04_HandlersReleased
   C04_ServerObserves
